@@ -83,7 +83,8 @@ def witnesses():
     return [
         mk([{'t': 'a'}, {'t': 'a '}, {'t': 'a!'}], ['list', ['t']], 'C12.text_prefix_keys'),
         mk([{'n': 2 ** 53 + 1}, {'n': 2 ** 53}], ['list', ['n']], 'C12.inexact_double'),
-        mk([{'n': 0.0}, {'n': -1.0}, {'n': -0.0}], ['list', ['n']], 'C12.negative_zero'),
+        mk([{'n': 0.0}, {'n': -1.0}, {'n': -0.0}], ['list', ['n']], 'regression: C12.negative_zero (fixed)'),
+        mk([{'n': decimal.Decimal('-0')}, {'n': -1}, {'n': 0}, {'n': -0.0}, {'n': 1e-300}], ['list', ['n']], 'regression: C12.negative_zero (fixed)'),
         mk([{'a': 'x', 'b': 'yz'}, {'a': 'xy', 'b': 'a'}], ['list', ['a', 'b']], 'C12.multi_field_concat'),
     ]
 
@@ -170,6 +171,8 @@ def oracle(case, out):
 # ---- faithful prediction (what the unchanged code is known to do), used only to recognise known findings
 def enc_num(v):
     f = float(v)
+    if f == 0:
+        f = 0.0           # -0.0 is zero (repaired by fix 'sort_rows gives -0.0 the key of 0')
     b = struct.unpack('>Q', struct.pack('>d', f))[0]
     b ^= 1 << 63
     if v < 0:
@@ -199,9 +202,6 @@ def finding(case, out, failure):
     fields = key_fields(case)
     vals = [[r[f] for f in fields] for r in rows]
     flat = [v for vs in vals for v in vs]
-    if any(isinstance(v, float) and v == 0 and str(v).startswith('-') for v in flat) or \
-            any(isinstance(v, decimal.Decimal) and v.is_zero() and v.is_signed() for v in flat):
-        return 'C12.negative_zero'
     if any(isinstance(v, (int, decimal.Decimal)) and not isinstance(v, bool) and fractions.Fraction(float(v)) != fractions.Fraction(v) for v in flat):
         return 'C12.inexact_double'
     texts = [[str(v) for v in vs] for vs in vals]
@@ -226,8 +226,6 @@ def coq_term(case, out):
     rows = rows_dec(case['rows'])
     flat = [r[f] for r in rows for f in key_fields(case)]
     for v in flat:
-        if isinstance(v, float) and v == 0 and str(v).startswith('-'):
-            return None
         if isinstance(v, (int, decimal.Decimal)) and not isinstance(v, bool) and fractions.Fraction(float(v)) != fractions.Fraction(v):
             return None
         if isinstance(v, (float, decimal.Decimal)) and v != 0 and not (1e-290 < abs(float(v)) < 1e305):
